@@ -117,6 +117,8 @@ pub struct Lab {
     call: Box<dyn FnMut(Request<Body>) -> BoxFut>,
     snapshot: Box<dyn Fn() -> Vec<PoolEntry>>,
     futs: Vec<Option<BoxFut>>,
+    /// futures of resolved requests that the caller has not dropped yet (`keep_completed_futures`)
+    kept: Vec<BoxFut>,
     wakers: Vec<Arc<CountWake>>,
     pub trace_hash: u64,
     pub states_seen: std::collections::BTreeSet<u64>,
@@ -134,6 +136,8 @@ pub fn default_config() -> LabConfig {
         origins: vec![OriginCfg { uri: "http://a.test".into(), alpn_h2: false }],
         timeout_layer_ms: None,
         open_ignores_busy: false,
+        keep_completed_futures: false,
+        protocol_pending_polls: 0,
     }
 }
 
@@ -147,6 +151,8 @@ impl LabConfig {
             "origins": self.origins.iter().map(|o| json!({"uri": o.uri, "alpn_h2": o.alpn_h2})).collect::<Vec<_>>(),
             "timeout_layer_ms": self.timeout_layer_ms,
             "open_ignores_busy": self.open_ignores_busy,
+            "keep_completed_futures": self.keep_completed_futures,
+            "protocol_pending_polls": self.protocol_pending_polls,
         })
     }
     pub fn from_json(v: &Value) -> LabConfig {
@@ -158,6 +164,8 @@ impl LabConfig {
             origins: v["origins"].as_array().map(|a| a.iter().map(|o| OriginCfg { uri: o["uri"].as_str().unwrap().to_string(), alpn_h2: o["alpn_h2"].as_bool().unwrap_or(false) }).collect()).unwrap_or_default(),
             timeout_layer_ms: v["timeout_layer_ms"].as_u64(),
             open_ignores_busy: v["open_ignores_busy"].as_bool().unwrap_or(false),
+            keep_completed_futures: v["keep_completed_futures"].as_bool().unwrap_or(false),
+            protocol_pending_polls: v["protocol_pending_polls"].as_u64().unwrap_or(0) as u8,
         }
     }
 }
@@ -170,7 +178,7 @@ impl Lab {
         pc.idle_timeout = cfg.idle_timeout_ms.map(Duration::from_millis);
         pc.max_idle_per_host = cfg.max_idle_per_host;
         let svc: ConnectionPoolService<LabTransport, LabProtocol, LabInner, Body> =
-            ConnectionPoolService::new(LabTransport { world: world.clone() }, LabProtocol { world: world.clone() }, LabInner { world: world.clone() }, pc);
+            ConnectionPoolService::new(LabTransport { world: world.clone() }, LabProtocol::new(world.clone()), LabInner { world: world.clone() }, pc);
         let svc = if cfg.with_pool { svc } else { svc.without_pool() };
         let snap_svc = svc.clone();
         let snapshot: Box<dyn Fn() -> Vec<PoolEntry>> = Box::new(move || snap_svc.verif_pool_snapshot());
@@ -188,7 +196,7 @@ impl Lab {
         if paused_clock {
             lock(&world).vtime_origin = Some(tokio::time::Instant::now());
         }
-        Lab { world, call, snapshot, futs: vec![], wakers: vec![], trace_hash: 0, states_seen: Default::default(), applied: vec![], paused_clock, last_pool_state: 0 }
+        Lab { world, call, snapshot, futs: vec![], kept: vec![], wakers: vec![], trace_hash: 0, states_seen: Default::default(), applied: vec![], paused_clock, last_pool_state: 0 }
     }
 
     /// ops that would do something in the current state
@@ -444,8 +452,12 @@ impl Lab {
                                 }
                             }
                         }
+                        let keep = w.cfg.keep_completed_futures;
                         drop(w);
-                        self.futs[r] = None;
+                        match self.futs[r].take() {
+                            Some(f) if keep => self.kept.push(f),
+                            _ => {}
+                        }
                     }
                 }
                 true
@@ -747,6 +759,12 @@ impl Lab {
             }
             let conn = d.hs.and_then(|h| w.hss[h].conn);
             if cont {
+                if d.res == Res3::Ok && d.hs.is_none() {
+                    // the transport connected, the attempt was abandoned before the protocol service was ready to start the
+                    // handshake (its poll_ready was pending), and the handshake was never started: the attempt was dropped
+                    out.push(("abandoned-attempt-dropped-between-connect-and-handshake".to_string(), format!("d{} connected, was abandoned at step {} while the protocol service was not ready yet, and no handshake was ever started for it (continue_after_preemption=true)", d.id, d.abandoned_step.unwrap())));
+                    continue;
+                }
                 let ok = d.res == Res3::Ok && d.hs.map(|h| w.hss[h].res == Res3::Ok).unwrap_or(false);
                 if !ok {
                     continue;
